@@ -20,13 +20,15 @@ PROPS["C11"] = {
     "rule": ("Scenario = cache size S + get/remove sequence on keys addressed as (shard, index). TestC11AllSizes enumerates every S in 1..300 "
              "plus {1023,1024,1025,2047,2048,4096} (thorough: more) with a sequence overfilling every shard; TestC11Random draws S and "
              "sequences with rapid. Non-trivial = at least one eviction observed AND (S is not a multiple of the observed shard count OR S < 16). "
-             "Distinct = by S for the enumeration, by canonical scenario JSON for random cases."),
+             "Distinct = by S for the enumeration, by canonical scenario JSON for random cases. TestC11Reload: 2-5 reloads of the cache list (sizes from 1..4096 incl. both sides of 1024, the cache sometimes dropped and re-created) "
+             "with up to 20 000 new keys after each: the resident count may never exceed the largest size ever configured for that cache name."),
     "assumptions": [
         "resident keys are counted through the verif hook VerifLen (groupcache lru Len per shard) and removals through the library's OnEvicted callback",
         "keys are produced like server.getKey does (a fresh byte slice per call)",
     ],
     "jobs": [
         {"engine": "unit", "test": "TestC11AllSizes", "rapid": False, "quick": {"shards": 1, "timeout": 300}, "thorough": {"shards": 1, "timeout": 1200}},
+        {"engine": "unit", "test": "TestC11Reload", "quick": {"shards": 4, "checks": 150, "timeout": 300}, "thorough": {"shards": 16, "checks": 3000, "timeout": 3000}},
         {"engine": "unit", "test": "TestC11Random", "quick": {"shards": 8, "checks": 1500, "timeout": 300}, "thorough": {"shards": 16, "checks": 20000, "timeout": 3000}},
     ],
 }
